@@ -83,5 +83,32 @@ func fixedCases() []Case {
 		ops.Op{K: "imgalign", I: []int{0, 1}}, ops.Op{K: "header", I: []int{0}, S: []string{"head"}}, ops.Op{K: "difffirst", B: []bool{true}},
 		ops.Op{K: "custompage", F: []float64{150, 200}}, ops.Op{K: "hfdist", F: []float64{10, 12}}, ops.Op{K: "gutter", F: []float64{5}})
 	all = append(all, c)
+
+	// 4. multi-valued formatting whose parts differ from each other: every side / entry / script has its own value
+	c = Case{Cycles: 3}
+	c.Ops = append(c.Ops,
+		ops.Op{K: "para", S: []string{"four different sides"}}, ops.Op{K: "para", S: []string{"heavy above, light below"}},
+		ops.Op{K: "para", S: []string{"left and right only"}}, ops.Op{K: "para", S: []string{"tabs\tand\tfonts ñ 中"}},
+		ops.Op{K: "pborder4", I: []int{0, 6, 1, 8, 2, 10, 3, 12, 4}, S: []string{"single", "111111", "double", "222222", "dotted", "333333", "dashed", "444444"}, B: []bool{true, true, true, true}},
+		ops.Op{K: "pborder4", I: []int{1, 24, 4, 0, 0, 4, 1, 0, 0}, S: []string{"thick", "FF0000", "", "", "dashed", "808080", "", ""}, B: []bool{true, false, true, false}},
+		ops.Op{K: "pborder4", I: []int{2, 0, 0, 2, 31, 0, 0, 96, 0}, S: []string{"", "", "dotted", "auto", "", "", "double", "0000FF"}, B: []bool{false, true, false, true}},
+		ops.Op{K: "ptabs", I: []int{3, 720, 4320, 8640, -200}, S: []string{"left", "", "center", "dot", "right", "hyphen", "decimal", "underscore"}},
+		ops.Op{K: "runfonts", I: []int{3, 0}, S: []string{"Arial", "Calibri", "宋体", "Noto Sans Arabic"}},
+		ops.Op{K: "addtext", I: []int{3}, S: []string{" second run"}, Fmt: &ops.Fmt{Bold: true}},
+		ops.Op{K: "runfonts", I: []int{3, 1}, S: []string{"Times New Roman", "", "Microsoft YaHei", ""}},
+		ops.Op{K: "indent", I: []int{0}, F: []float64{-0.75, 2, 1.25}}, ops.Op{K: "spacing", I: []int{1, 18, 7, 11}, F: []float64{1.15}},
+		ops.Op{K: "table", I: []int{3, 3, 7000}, Grid: [][]string{{"a", "b", "c"}, {"d", "e", "f"}, {"g", "h", "i"}}},
+		ops.Op{K: "tblborders6", I: []int{0, 4, 0, 8, 1, 12, 2, 16, 3, 2, 0, 6, 5}, S: []string{"single", "111111", "double", "222222", "dashed", "333333", "dotted", "444444", "thick", "555555", "none", "auto"},
+			B: []bool{true, true, true, true, true, true}},
+		ops.Op{K: "cellborders6", I: []int{0, 1, 1, 4, 0, 8, 1, 12, 2, 16, 3, 2, 0, 6, 5}, S: []string{"double", "AA0000", "single", "00AA00", "dotted", "0000AA", "dashed", "AAAA00", "single", "00AAAA", "thick", "AA00AA"},
+			B: []bool{true, true, true, true, true, true}},
+		ops.Op{K: "cellborders6", I: []int{0, 0, 2, 4, 0, 0, 0, 12, 2, 0, 0, 2, 0, 0, 0}, S: []string{"double", "AA0000", "", "", "dotted", "0000AA", "", "", "single", "00AAAA", "", ""},
+			B: []bool{true, false, true, false, true, false}},
+		ops.Op{K: "tcmar", I: []int{0, 2, 0, 10, 20, 30, 40}, S: []string{"dxa", "dxa", "nil", "pct"}, B: []bool{true, true, true, true}},
+		ops.Op{K: "tcmar", I: []int{0, 2, 1, 55, 0, 0, 66}, S: []string{"dxa", "", "", "dxa"}, B: []bool{true, false, false, true}},
+		ops.Op{K: "tblcellmar", I: []int{0, 15, 115, 25, 125}, S: []string{"dxa", "dxa", "dxa", "dxa"}, B: []bool{true, true, true, true}},
+		ops.Op{K: "cellpborder4", I: []int{0, 2, 2, 0, 6, 1, 8, 2, 10, 3, 12, 4}, S: []string{"dashed", "123456", "single", "654321", "double", "ABCDEF", "dotted", "FEDCBA"}, B: []bool{true, true, true, true}},
+		ops.Op{K: "margins", F: []float64{11, 22, 33, 44}})
+	all = append(all, c)
 	return all
 }
